@@ -130,6 +130,41 @@ def wrapped_case(heap, root, cfg):
     return None
 
 
+def inplace_wrapped_case(heap, root, cfg, r):
+    """comment wrappers put INSIDE the graph (a list element / dict value is replaced by a wrapper around
+    it), so that cycles pass through them; long comment texts, so that the comment-above layouts are taken"""
+    from prettyprinter import comment, trailing_comment
+    objs = G.build(heap)
+    texts = ['kids', 'a note that is far too long to stand at the end of the line it belongs to ' * 2, 'two\nlines']
+    changed = 0
+    for i, n in enumerate(heap):
+        o = objs[i]
+        if n[0] == 'list' and o:
+            k = r.randrange(len(o))
+            if type(o[k]) in (list, dict, tuple) or isinstance(o[k], G.GBase):
+                o[k] = (comment if r.random() < 0.7 else trailing_comment)(o[k], r.choice(texts)) \
+                    if type(o[k]) in (list, dict, tuple) else comment(o[k], r.choice(texts))
+                changed += 1
+        elif n[0] == 'dict' and o:
+            key = r.choice(list(o))
+            if type(o[key]) in (list, dict, tuple) or isinstance(o[key], G.GBase):
+                o[key] = comment(o[key], r.choice(texts))
+                changed += 1
+    if not changed:
+        return None, False
+    text, ws = G.run_impl(objs[root], cfg)
+    ref, _w = G.run_impl(G.unfold(objs[root], []), cfg)
+    if text.startswith('EXC'):
+        return 'pformat raised / did not return: ' + text, True
+    other = [m for m in ws if NOSUPPORT not in m]
+    if other:
+        return 'warnings: ' + other[0][:100], True
+    if text != ref:
+        return 'with comment wrappers INSIDE the graph, markers / shared substructure differ from the reference unfolding:\n%s\n--- expected ---\n%s' % (
+            text[:500], ref[:500]), True
+    return None, True
+
+
 def main(tier):
     run = Run(PROP, tier)
     built = run.build()
@@ -172,6 +207,16 @@ def main(tier):
             if msg and len(run.violations) < 3:
                 run.violation({'kind': 'wrapped', 'detail': msg, 'heap': heap, 'root': root, 'cfg': cfg})
         run.coverage['comment_wrapped_graphs'] = nwr
+        nin = 0
+        r3 = __import__('common').rng(PROP + '/inplace')
+        for heap, root, cfg in cases[::(3 if tier == 'quick' else 2)]:
+            msg, used = inplace_wrapped_case(heap, root, cfg, r3)
+            if used:
+                nin += 1
+                run.count(1)
+            if msg and len(run.violations) < 3:
+                run.violation({'kind': 'inplace-wrapped', 'detail': msg, 'heap': heap, 'root': root, 'cfg': cfg})
+        run.coverage['graphs_with_wrappers_inside'] = nin
         # interrupted prints leave no residue either
         nab = nreached = 0
         for heap, root, cfg in cases[::(3 if tier == 'quick' else 2)]:
@@ -202,7 +247,8 @@ def main(tier):
             'set empty afterwards. Oracle: the text equals pformat of an acyclic copy built by a reference DFS in which '
             'exactly the back-references (objects among the ancestors) are marker objects; printing another value and '
             'the same value again gives the same text; the objects of the graph under comment() / trailing_comment() '
-            'wrappers next to the bare objects (oracle only); histories in which a print is interrupted inside a user printer by '
+            'wrappers next to the bare objects, and wrappers put inside the graph so that cycles pass through commented '
+            'list elements / dict values (oracle only); histories in which a print is interrupted inside a user printer by '
             'a BaseException (nothing returned), after which the same objects and every other object of the graph print '
             'as in a first call. non-trivial = cases whose root reaches a cycle')
         for k in (0, len(cases) // 2, len(cases) - 1):
